@@ -10,7 +10,7 @@
 From Coq Require Import List Arith Bool ZArith Reals.
 From Coq Require String.
 From PA Require Import base.Arr base.Px base.MatL model.DistrGeom model.DistrFit model.DistrRepr
-  proofs.VmiInvProofs proofs.DistrGeomProofs proofs.DistrFitProofs proofs.DistrReprProofs proofs.C15R proofs.C15Inv.
+  proofs.VmiInvProofs proofs.DistrGeomProofs proofs.DistrFitProofs proofs.DistrReprProofs proofs.C15R proofs.C15Inv proofs.C15Scale proofs.C15Prefix gen.VmiIndex proofs.VmiIndexProofs.
 Import ListNotations.
 
 (* For every order 0..8 and both parities (18 cases, each decided by
@@ -141,19 +141,52 @@ Theorem C15_weights_scale :
 Proof. exact weights_scale. Qed.
 Print Assumptions C15_weights_scale.
 
-(* A larger rmax gives the same coefficients at the common radii: 'nearest'
-   method, even orders only (for every N, any weights, no conditioning
-   hypothesis: the pixel lists of the radius are literally the same).
-   Partial: 'linear' and odd orders are swept numerically only. *)
-Theorem C15_rmax_prefix_partial :
-  forall h w row col r1 r2 N use_sin (W : option (list (list R))) IM r,
-  (row < h)%nat -> (col < w)%nat -> (r <= r1)%nat -> (r1 <= r2)%nat ->
-  let g1 := quad_geom h w row col r1 false N in
-  let g2 := quad_geom h w row col r2 false N in
-  nth r (distr_cos Rops sqrtR Nearest g2 use_sin W IM) None
-  = nth r (distr_cos Rops sqrtR Nearest g1 use_sin W IM) None.
-Proof. exact rmax_prefix_nearest_even. Qed.
-Print Assumptions C15_rmax_prefix_partial.
+(* A larger rmax gives the same coefficients at the common radii: both methods,
+   even orders only and with odd orders, every N, any weights or None, with or
+   without sin weighting; no conditioning hypothesis (the pixel lists of a common
+   radius are literally the same lists). *)
+Theorem C15_rmax_prefix :
+  forall h w row col r1 r2 odd N, (row < h)%nat -> (col < w)%nat -> (r1 <= r2)%nat ->
+  forall meth use_sin (W : option (list (list R))) IM r, (r <= r1)%nat ->
+  nth r (distr_cos Rops sqrtR meth (quad_geom h w row col r2 odd N) use_sin W IM) None
+  = nth r (distr_cos Rops sqrtR meth (quad_geom h w row col r1 odd N) use_sin W IM) None.
+Proof. exact rmax_prefix. Qed.
+Print Assumptions C15_rmax_prefix.
+
+(* Multiplying the image by a constant c (any sign, any magnitude): every cos^n
+   coefficient is multiplied by c (all radii, every N, nearest and linear, sin
+   on/off, weights or None), the harmonics are multiplied by c, and for c <> 0
+   I(r) is multiplied by c while every beta_n is unchanged, for every window
+   size (where P_0 = 0 the betas are 0 before and after). *)
+Theorem C15_image_scale_cos :
+  forall h w row col rmax odd N meth use_sin (W : option (list (list R))) (IM : list (list R)) (c : R),
+  (row < h)%nat -> (col < w)%nat -> wf h w IM -> (forall Wt, W = Some Wt -> wf h w Wt) ->
+  let g := quad_geom h w row col rmax odd N in
+  distr_cos Rops sqrtR meth g use_sin W (imap (Rmult c) IM)
+  = map (option_map (vscale c)) (distr_cos Rops sqrtR meth g use_sin W IM).
+Proof. exact image_scale_cos. Qed.
+Print Assumptions C15_image_scale_cos.
+
+Theorem C15_harmonics_scale : forall order odd (c : R) (cn : list (list R)),
+  harmonicsR order odd (mscaleR c cn) = mscaleR c (harmonicsR order odd cn).
+Proof. exact harmonics_scale. Qed.
+Print Assumptions C15_harmonics_scale.
+
+Theorem C15_Ibeta_scale : forall order odd window rs (c : R) (cn : list (list R)), c <> 0%R ->
+  IbetaR order odd window rs (mscaleR c cn)
+  = match IbetaR order odd window rs cn with
+    | Irow :: beta => vscale c Irow :: beta
+    | [] => []
+    end.
+Proof. exact Ibeta_scale. Qed.
+Print Assumptions C15_Ibeta_scale.
+
+(* Results.orders / Results.sinpowers as translated from the current source
+   (gen/VmiIndex.v, regenerated on every run) are the model's, for every order. *)
+Theorem C15_orders_translated : forall order odd,
+  gen_orders order odd = orders order odd /\ gen_sinpowers order odd = sinpowers order odd.
+Proof. intros; split; [apply orders_translated|apply sinpowers_translated]. Qed.
+Print Assumptions C15_orders_translated.
 
 (* Changing pixels whose weight is zero changes no result. *)
 Theorem C15_zero_weight_pixels_ignored : forall h w meth g use_sin (Wt IM IM' : list (list R)),
